@@ -101,7 +101,7 @@ def run_modules(case):
         if c is not None:
             c.cleanup()
 
-case = (['call', 'ABS', [['bin', '^', ['bin', '-', ['var', 'beta'], ['var', 'gamma']], ['call', 'EXP', [['time']]]]]], ['Abs((beta - (gamma_level)) ^ Exp(Time))', 'ABS((beta-Gamma_Level)^EXP(TIME))', 'ABS((beta - Gamma_Level) ^ EXP(TIME))'], 1, 0.25)
+case = (['neg', ['bin', '-', ['bin', '-', ['call', 'MIN', [['var', 'gamma'], ['num', 3.0]]], ['bin', '*', ['var', 'alpha'], ['var', 'beta']]], ['bin', '*', ['bin', '/', ['num', 7.0], ['var', 'beta']], ['bin', '*', ['num', 3.0], ['var', 'delta']]]]], ['(-((MIN(gamma_level,  3)  -  ((alpha_rate)  *  beta))  -  7  /  (beta)  *  (3  *  delta)))', '-(Min(Gamma_Level,3.0)-((Alpha_Rate)*beta)-(7.0)/beta*(3.0*(DELTA)))', '-(MIN(Gamma_Level, 3.0) - Alpha_Rate * beta - 7.0 / beta * (3.0 * DELTA))'], 0, 1)
 bad = run(case)
 print("FAIL: " + bad if bad else "PASS")
 sys.stdout.flush()
